@@ -11,6 +11,8 @@ import Tcell.Model.Encode
 import Tcell.Gen.TerminfoDB
 import Tcell.Gen.Acs
 import Tcell.Spec.TermCaps
+import Tcell.Lemmas.TPuts
+import Tcell.Spec.Ecma48
 namespace Tcell.Props.C17
 open Tcell
 
@@ -261,31 +263,37 @@ theorem acsSpecOn_iff (v : EncVariant) (names : List (Nat × Rune)) (e : Terminf
     | some q => simpa using h p hp q hq
 
 /-- the variant of `buildAcsMap` the tree under test implements, as found by the translator's behavioural probe
-(`harness/cmd/extract/acs.go` `acsProbe`; engine `acs` asks the same two questions and the correspondence ties
-`buildAcsMap treeVariant` to the real function on every database entry) -/
-def treeVariant : EncVariant := { acsAll := Gen.acsAll, acsRawByte := Gen.acsRawByte }
+(`harness/cmd/extract/acs.go` `acsProbe`; engine `acs` asks the same three questions and the correspondence ties
+`buildAcsMap treeVariant` to the real function on every database entry and on synthetic descriptions) -/
+def treeVariant : EncVariant :=
+  { acsAll := Gen.acsAll, acsRawByte := Gen.acsRawByte, acsStrip := Gen.acsStripsPadding }
 
-/-- the current tree has both repairs of /repo 1c34022 (loop `>= 2`, raw terminal byte) -/
-theorem tree_variant_repaired : treeVariant = .repaired := by decide
-
-/-- **acs_map_spec** (full strength, current tree): for EVERY entry of the regenerated database and EVERY pair `(n, d)` of
-its `AltChars` with `n ∈ vtACSNames` – the last pair and terminal characters ≥ 0x80 included –
-`acs (rune n) = EnterAcs ++ [d] ++ ExitAcs`, for the `buildAcsMap` of the tree under test.  Holds since /repo 1c34022;
-on the pinned tree only `acs_map_spec_pinned_extent` held (witnesses `acs_map_spec_pinned_fails`,
-`acs_map_pinned_high_byte`).  `EnterAcs`/`ExitAcs` are the capability strings as the database has them, i.e. including
-any `$<n>` padding: what reaches the terminal is the subject of `acs_map_wire` below. -/
-theorem acs_map_spec :
-    ∀ e ∈ Gen.db, acsSpecOn treeVariant Gen.vtACSNames e (pairs e.altChars) = true := by decide
-
-/-- the same about the repaired model variant, whatever the tree (kept: it is what `acs_map_spec` reduces to) -/
-theorem acs_map_spec_repaired :
-    ∀ e ∈ Gen.db, acsSpecOn .repaired Gen.vtACSNames e (pairs e.altChars) = true := by decide
+/-- the current tree has both repairs of /repo 1c34022 (loop `>= 2`, raw terminal byte); with
+fixes/C17-acs-strip-padding.patch it is `.stripped`, without it `.repaired` — the kernel decides which -/
+theorem tree_variant_repaired : treeVariant = if Gen.acsStripsPadding then .stripped else .repaired := by decide
 
 /-- the database entries whose `smacs`/`rmacs` carry a padding specification (terminfo(5) `$<…>`) -/
 def acsPadded (e : Terminfo) : Bool :=
   !(Spec.TermCaps.stripPadding e.enterAcs == e.enterAcs && Spec.TermCaps.stripPadding e.exitAcs == e.exitAcs)
 
-/-- exactly two entries are concerned by the open finding `C17-acs-padding`: vt220 and vt420 -/
+/-- **acs_map_spec** (current tree): for EVERY entry of the regenerated database and EVERY pair `(n, d)` of
+its `AltChars` with `n ∈ vtACSNames` – the last pair and terminal characters ≥ 0x80 included –
+`acs (rune n) = EnterAcs ++ [d] ++ ExitAcs`, for the `buildAcsMap` of the tree under test.  Holds since /repo 1c34022;
+on the pinned tree only `acs_map_spec_pinned_extent` held (witnesses `acs_map_spec_pinned_fails`,
+`acs_map_pinned_high_byte`).  `EnterAcs`/`ExitAcs` are the capability strings as the database has them, i.e. including
+any `$<n>` padding; on a tree that removes the padding (`Gen.acsStripsPadding`) this reading is therefore stated for the
+entries without padding only — what reaches the terminal, for EVERY entry, is the subject of `acs_map_wire` below. -/
+theorem acs_map_spec :
+    ∀ e ∈ Gen.db, (Gen.acsStripsPadding = false ∨ acsPadded e = false) →
+      acsSpecOn treeVariant Gen.vtACSNames e (pairs e.altChars) = true := by decide
+
+/-- the same about the model variant `.repaired` (/repo 1c34022 … before the padding repair), every entry, whatever the tree -/
+theorem acs_map_spec_repaired :
+    ∀ e ∈ Gen.db, acsSpecOn .repaired Gen.vtACSNames e (pairs e.altChars) = true := by decide
+
+/-- the entries with padding in smacs/rmacs: vt220 and vt420.  (A fact about the database; together with
+`acs_wire_unstripped_extent` it says which entries the finding `C17-acs-padding` concerns on a tree WITHOUT
+fixes/C17-acs-strip-padding.patch.) -/
 theorem acs_padded_entries : (Gen.db.filter acsPadded).map (·.name) = ["vt220", "vt420"] := by decide
 
 /-- what the terminal must receive for the glyph `d`: `smacs`, the character, `rmacs`, each capability string as `TPuts`
@@ -299,22 +307,172 @@ def acsWireOn (v : EncVariant) (names : List (Nat × Rune)) (e : Terminfo) (ps :
     | some (_, r) => (buildAcsMap v names e).get? r == some (acsWire e p.2)
     | none => true
 
-/-- **acs_map_wire** (the property's reading, modulo the open finding `C17-acs-padding`): for every database entry other
-than vt220 and vt420 and every listed pair, the string `drawCell` writes for the glyph (it is written with `writeString`,
-not `TPuts`: tscreen.go encodeRune/drawCell) is byte for byte what the terminal must receive.  For the two excepted
-entries the statement is FALSE on the current tree (`acs_wire_padded_fails`): their `$<2>` / `$<4>` reaches the terminal;
-the oracle of engine `enc` reports it as class `acs-padding-literal` (open: needs a design decision, DESIGN §10.3). -/
+/-- **acs_map_wire** (the property's reading; current tree): the string `drawCell` writes for the glyph (it is written with
+`writeString`, not `TPuts`: tscreen.go encodeRune/drawCell) is byte for byte what the terminal must receive —
+on a tree with fixes/C17-acs-strip-padding.patch (`Gen.acsStripsPadding = true`: the hypothesis is trivially true) for
+EVERY database entry and every listed pair, with no exception; on a tree without it for every entry other than vt220 and
+vt420 (for those two the statement is then FALSE: `acs_wire_padded_fails`, finding `C17-acs-padding`, oracle class
+`acs-padding-literal`). -/
 theorem acs_map_wire :
-    ∀ e ∈ Gen.db, e.name ≠ "vt220" → e.name ≠ "vt420" → acsWireOn treeVariant Gen.vtACSNames e (pairs e.altChars) = true := by
+    ∀ e ∈ Gen.db, (Gen.acsStripsPadding = true ∨ (e.name ≠ "vt220" ∧ e.name ≠ "vt420")) →
+      acsWireOn treeVariant Gen.vtACSNames e (pairs e.altChars) = true := by
   decide
 
-/-- the exception of `acs_map_wire` cannot be dropped on the current tree: on vt220 the horizontal-line glyph is written as
-`ESC ( 0 $ < 2 > q ESC ( B $ < 4 >` -/
-theorem acs_wire_padded_fails :
-    ∃ e ∈ Gen.db, e.name = "vt220" ∧ acsWireOn treeVariant Gen.vtACSNames e (pairs e.altChars) = false ∧
-      (buildAcsMap treeVariant Gen.vtACSNames e).get? 9472 = some [27, 40, 48, 36, 60, 50, 62, 113, 27, 40, 66, 36, 60, 52, 62] ∧
-      acsWire e 113 = [27, 40, 48, 113, 27, 40, 66] := by
+/-- the premise of `acs_map_wire` is satisfiable on either tree (xterm), and the entries it may exclude exist (vt220) -/
+example : (∃ e ∈ Gen.db, e.name = "xterm" ∧ (Gen.acsStripsPadding = true ∨ (e.name ≠ "vt220" ∧ e.name ≠ "vt420")) ∧
+      (pairs e.altChars).length ≥ 20) ∧ (∃ e ∈ Gen.db, e.name = "vt220" ∧ acsPadded e = true) := by decide
+
+/-- **acs_map_wire, repaired variant**: for the model variant with fixes/C17-acs-strip-padding.patch, EVERY database entry,
+every listed pair, no exception, whatever the tree under test (it is what `acs_map_wire` reduces to on a patched tree). -/
+theorem acs_map_wire_stripped :
+    ∀ e ∈ Gen.db, acsWireOn .stripped Gen.vtACSNames e (pairs e.altChars) = true := by
   decide
+
+/-- the repair changes nothing but the padding: on every entry without padding in smacs/rmacs the two variants build the
+same map -/
+theorem acs_strip_conservative :
+    ∀ e ∈ Gen.db, acsPadded e = false → buildAcsMap .stripped Gen.vtACSNames e = buildAcsMap .repaired Gen.vtACSNames e := by
+  decide
+
+/-- the unrepaired variant (`.repaired` = /repo before fixes/C17-acs-strip-padding.patch) is wire-exact on precisely the
+entries without padding: the extent of the finding `C17-acs-padding` -/
+theorem acs_wire_unstripped_extent :
+    ∀ e ∈ Gen.db, acsWireOn .repaired Gen.vtACSNames e (pairs e.altChars) = !acsPadded e := by
+  decide
+
+/-- the pinned counterexample (kept; about the model variant WITHOUT the padding repair, whatever the tree): on vt220 the
+horizontal-line glyph is written as `ESC ( 0 $ < 2 > q ESC ( B $ < 4 >`; the repaired variant writes `ESC ( 0 q ESC ( B`. -/
+theorem acs_wire_padded_fails :
+    ∃ e ∈ Gen.db, e.name = "vt220" ∧ acsWireOn .repaired Gen.vtACSNames e (pairs e.altChars) = false ∧
+      (buildAcsMap .repaired Gen.vtACSNames e).get? 9472 = some [27, 40, 48, 36, 60, 50, 62, 113, 27, 40, 66, 36, 60, 52, 62] ∧
+      acsWire e 113 = [27, 40, 48, 113, 27, 40, 66] ∧
+      (buildAcsMap .stripped Gen.vtACSNames e).get? 9472 = some [27, 40, 48, 113, 27, 40, 66] := by
+  decide
+
+/-! #### any description, not only the database: every string of the repaired map is wire-exact -/
+
+/-- the repaired `strip` is the terminfo(5) reference: `TPuts` of the tree with an empty pad character writes
+`stripPadding s` (`Lemmas.TPuts.tputsAux_bytes`, the lemma behind `C15.tputs_spec`) -/
+theorem acsCap_stripped (v : EncVariant) (h : v.acsStrip = true) (s : Bytes) :
+    acsCap v s = Spec.TermCaps.stripPadding s := by
+  have := TPuts.tputsAux_bytes [] (s.length + 1) s {} (Nat.lt_succ_self _)
+  simpa [acsCap, h, TPuts.tputs, TPuts.tputsV, TPuts.currentStrict] using this
+
+theorem acsCap_unstripped (v : EncVariant) (h : v.acsStrip = false) (s : Bytes) : acsCap v s = s := by
+  simp [acsCap, h]
+
+/-- every binding the loop adds is `enter ++ dstv ++ exit` for a pair of the `acsc` string -/
+theorem acsLoop_values (v : EncVariant) (names : List (Nat × Rune)) (enter exit : Bytes) (s : Bytes) (m : RuneMap)
+    (r : Rune) (a : Bytes) (h : (acsLoop v names enter exit s m).get? r = some a) :
+    m.get? r = some a ∨ ∃ p ∈ pairs s, a = enter ++ acsDstv v p.2 ++ exit := by
+  induction s using pairs.induct generalizing m with
+  | case1 n d rest ih =>
+    unfold acsLoop at h
+    split at h
+    · rcases ih _ h with h1 | ⟨p, hp, ha⟩
+      · split at h1
+        · rename_i r' _
+          by_cases hr : r = r'
+          · subst hr
+            rw [get_insert_self] at h1
+            right
+            exact ⟨(n, d), by simp [pairs], by simpa using h1.symm⟩
+          · rw [get_insert_other _ _ _ _ hr] at h1
+            left; exact h1
+        · left; exact h1
+      · right; exact ⟨p, by simp [pairs, hp], ha⟩
+    · left; exact h
+  | case2 s hs =>
+    left
+    unfold acsLoop at h
+    split at h
+    · exact absurd rfl (hs _ _ _)
+    · exact h
+
+/-- **acs_values_wire** (repaired variant, ANY terminal description and any name table — not only the database): every
+string of the ACS map, i.e. everything `encodeRune` can hand to `writeString` for an ACS glyph, is
+`stripPadding EnterAcs ++ dstv ++ stripPadding ExitAcs` for a pair `(n, d)` of the description's `acsc` string: the two
+capability strings exactly as `TPuts` would emit them (terminfo(5) reference `stripPadding`), the terminal's character in
+between — nothing of the padding, nothing else removed, whatever form the padding has and wherever it stands. -/
+theorem acs_values_wire (v : EncVariant) (hs : v.acsStrip = true) (names : List (Nat × Rune)) (e : Terminfo)
+    (r : Rune) (a : Bytes) (h : (buildAcsMap v names e).get? r = some a) :
+    ∃ p ∈ pairs e.altChars,
+      a = Spec.TermCaps.stripPadding e.enterAcs ++ acsDstv v p.2 ++ Spec.TermCaps.stripPadding e.exitAcs := by
+  unfold buildAcsMap at h
+  rcases acsLoop_values v names _ _ _ _ r a h with h0 | ⟨p, hp, ha⟩
+  · simp [RuneMap.get?] at h0
+  · exact ⟨p, hp, by rw [ha, acsCap_stripped v hs, acsCap_stripped v hs]⟩
+
+/-- the same for a tree without the repair: the capability strings verbatim — so a padding specification in smacs/rmacs
+reaches `writeString` (the defect, for any description) -/
+theorem acs_values_verbatim (v : EncVariant) (hs : v.acsStrip = false) (names : List (Nat × Rune)) (e : Terminfo)
+    (r : Rune) (a : Bytes) (h : (buildAcsMap v names e).get? r = some a) :
+    ∃ p ∈ pairs e.altChars, a = e.enterAcs ++ acsDstv v p.2 ++ e.exitAcs := by
+  unfold buildAcsMap at h
+  rcases acsLoop_values v names _ _ _ _ r a h with h0 | ⟨p, hp, ha⟩
+  · simp [RuneMap.get?] at h0
+  · exact ⟨p, hp, by rw [ha, acsCap_unstripped v hs, acsCap_unstripped v hs]⟩
+
+/-- hypotheses satisfiable, on forms of padding the database does not have: padding in the middle and at the start, `*` `/`
+flags and a decimal, a `$<x>` that is no padding specification (kept), the `$` `<` characters of the terminal kept -/
+example : (buildAcsMap .stripped Gen.vtACSNames
+      { (default : Terminfo) with altChars := [113, 36], enterAcs := [27, 36, 60, 53, 62, 40, 48, 36, 60, 120, 62],
+                                   exitAcs := [36, 60, 49, 46, 53, 42, 47, 62, 27, 40, 66] }).get? 9472 =
+    some [27, 40, 48, 36, 60, 120, 62, 36, 27, 40, 66] := by decide
+
+/-! #### "always occupying the cell's width": the ACS string on the reference terminal -/
+
+/-- the reference ECMA-48 terminal (`Spec.Ecma48`, 8-bit locale, 40 columns, cursor at the origin) after receiving `s` -/
+def acsTerm (e : Terminfo) (s : Bytes) : Spec.Ecma48.Term :=
+  ((Spec.Ecma48.Term.init { w := 40, h := 2, utf8 := false, ffClears := (e.clear == [12]) }).feed s).finish
+
+/-- the string shows ONE glyph and leaves the terminal as it was: no complaint of the strict tokenizer, the cursor one cell
+to the right of where it was, every mode register (G0/G1 designation, shift state, alternate font, …) back at its value -/
+def oneCell (e : Terminfo) (s : Bytes) : Bool :=
+  let t := acsTerm e s
+  t.malformed.isEmpty && t.cx == 1 && t.cy == 0 && !t.pendingWrap && t.modes == (acsTerm e []).modes
+
+/-- ECMA-48 family (the scope of the reference terminal): cursor addressing starts with CSI -/
+def isEcma (e : Terminfo) : Bool := match e.setCursor with | 27 :: 91 :: _ => true | _ => false
+
+/-- for every listed, named pair whose terminal character is a graphic byte, the map's string for the rune occupies one cell -/
+def acsOneCellOn (v : EncVariant) (names : List (Nat × Rune)) (e : Terminfo) (ps : List (Nat × Nat)) : Bool :=
+  ps.all fun p =>
+    match names.find? (fun q => q.1 == p.1) with
+    | some (_, r) =>
+      if p.2 < 32 || p.2 == 127 then true
+      else match (buildAcsMap v names e).get? r with
+        | some a => oneCell e a
+        | none => false
+    | none => true
+
+set_option maxRecDepth 100000 in
+/-- **acs_glyph_one_cell** (the property's "always occupying the cell's width", ACS branch; tree under test): on a tree with
+fixes/C17-acs-strip-padding.patch, for EVERY ECMA-48-family entry of the database and every listed pair whose terminal
+character is a graphic byte, the string written for the glyph moves the reference terminal's cursor by exactly one cell,
+raises no complaint and restores every mode; on a tree without the repair the same for every entry but vt220 and vt420.
+(Pairs whose terminal character is a C0 byte — the PC-font positions of ansi, cygwin, pcansi — are outside the reference
+terminal's scope: `C09.acs_pc_font_controls`.) -/
+theorem acs_glyph_one_cell :
+    (Gen.db.filter isEcma).all (fun e =>
+      (Gen.acsStripsPadding || (e.name != "vt220" && e.name != "vt420")) →
+        acsOneCellOn treeVariant Gen.vtACSNames e (pairs e.altChars)) = true := by
+  decide +kernel
+
+set_option maxRecDepth 100000 in
+/-- the same about the repaired model variant: every ECMA entry, no exception, whatever the tree -/
+theorem acs_glyph_one_cell_stripped :
+    (Gen.db.filter isEcma).all (fun e => acsOneCellOn .stripped Gen.vtACSNames e (pairs e.altChars)) = true := by
+  decide +kernel
+
+set_option maxRecDepth 100000 in
+/-- pinned counterexample (variant without the padding repair): on vt220 the horizontal line occupies NINE cells — the glyph
+and the eight characters of `$<2>` `$<4>` (the first four of them shown in the special-graphics set) -/
+theorem acs_glyph_unstripped_nine_cells :
+    ∃ e ∈ Gen.db, e.name = "vt220" ∧ acsOneCellOn .repaired Gen.vtACSNames e (pairs e.altChars) = false ∧
+      (acsTerm e [27, 40, 48, 36, 60, 50, 62, 113, 27, 40, 66, 36, 60, 52, 62]).cx = 9 ∧
+      (acsTerm e [27, 40, 48, 113, 27, 40, 66]).cx = 1 := by
+  decide +kernel
 
 /-- non-vacuity: the database has entries with an ACS map, their pair lists are non-trivial (xterm: 30-odd pairs, all
 named), the last pair of xterm (`~~`, bullet) and the ≥ 0x80 character of `ansi` are covered -/
